@@ -198,6 +198,79 @@ def part_a(proto):
 # ---------------------------------------------------------------------------------------------
 # Part B
 # ---------------------------------------------------------------------------------------------
+# ---------------------------------------------------------------------------------------------
+# Part C: requests issued from inside the library's own notifications (the thread that delivers them)
+# ---------------------------------------------------------------------------------------------
+def part_cb(job):
+    from cflib.crazyflie import Crazyflie
+    cfh.setup()
+    where, op = job
+    p = Partial()
+    dev = _device_a(10)
+    ex = cfh.Exec((), dev, time_limit=400.0, reply_menu=('once',), needs_resending=True)
+    ex.freeze()
+    rp = {'part': 'C', 'where': where, 'op': op}
+    name = '%s:%s' % (op, where)
+
+    def main():
+        cf = Crazyflie()
+        got = {'updates': []}
+        cf.param.add_update_callback(group='g1', name='p1', cb=lambda n, v: got['updates'].append((n, v)))
+
+        def act(*a):
+            if got.get('done'):
+                return
+            got['done'] = True
+            got['updates_before'] = len(got['updates'])
+            try:
+                if op == 'set':
+                    cf.param.set_value('g1.p1', 4242)
+                else:
+                    dev.params[1].value = 999           # changed on the device since the download
+                    cf.param.request_param_update('g1.p1')
+                got['result'] = 'ok'
+            except Exception as e:  # noqa
+                got['result'] = e
+        if where == 'fully_connected':
+            cf.fully_connected.add_callback(act)
+        elif where == 'all_updated':
+            cf.param.all_updated.add_callback(act)
+        elif where == 'param_update_cb':
+            # the notification of one parameter (after everything is there) triggers a request about another one
+            cf.param.add_update_callback(group='g0', name='p0', cb=lambda n, v: act() if got.get('armed') else None)
+        if not _connect_full(ex, cf):
+            p.violation('param:setup:no_connect:partC', 'could not fully connect', rp)
+            return
+        if where == 'param_update_cb':
+            got['armed'] = True
+            cf.param.set_value('g0.p0', 9)
+        ex.wait_for(lambda: 'result' in got, 5.0, 'wait.cb')
+        ex.s.sleep(0.5)
+        want = '4242' if op == 'set' else '999'
+        new = got['updates'][got.get('updates_before', 0):]
+        p.case(key=('cb',) + tuple(job), outcome=(repr(got.get('result'))[:30], tuple(new)),
+               sample={'request': name, 'result': repr(got.get('result'))[:60], 'notified': new})
+        if got.get('result') != 'ok':
+            p.violation('param:from_callback:refused:%s' % name, '%s of g1.p1 from inside the %s notification (every parameter has '
+                        'its value by then): %r' % (op, where, got.get('result')), rp)
+        else:
+            if op == 'set' and dev.params[1].value != 4242:
+                p.violation('param:from_callback:not_transmitted:%s' % name, 'device value %r after set_value(4242) from the %s '
+                            'notification' % (dev.params[1].value, where), rp)
+            if new != [('g1.p1', want)]:
+                p.violation('param:from_callback:notification:%s' % name, 'update notifications %r, expected one with %s' % (new, want), rp)
+            if cf.param.values.get('g1', {}).get('p1') != want:
+                p.violation('param:from_callback:value:%s' % name, 'stored value %r, expected %s' % (cf.param.values.get('g1', {}).get('p1'), want), rp)
+        cf.close_link()
+
+    ex.run(main)
+    if ex.s.status != 'ok':
+        p.violation('param:partC:%s:%s' % (ex.s.status, name), 'part C did not complete: %r' % (ex.s.blocked_report,), rp)
+    if ex.s.died:
+        p.violation('param:partC:thread_died:%s:%s' % (ex.s.died[0][1].split('(')[0], name), 'thread died: %r' % (ex.s.died[0][:2],), rp)
+    return p
+
+
 def _device_b():
     params = [simcf.ParamVar('a', 'x', 0x09, value=258, extended=True, persistent=True, default=2),
               simcf.ParamVar('a', 'y', 0x01, value=7, extended=True, persistent=True, default=9, stored=4),
@@ -634,7 +707,7 @@ def _focus_filter(devs, i, alt, label):
 
 def run(ck):
     cfh.setup()
-    ck.rule = ('A: 10 firmware types x {protocol 10 (V2 ids), 3 (V1 ids)} x value alphabet (type min/max, one beyond, -1, 0, 1, '
+    ck.rule = ('C: set / read of a parameter issued from inside the fully_connected, all_updated and a parameter-update notification (6 cases). A: 10 firmware types x {protocol 10 (V2 ids), 3 (V1 ids)} x value alphabet (type min/max, one beyond, -1, 0, 1, '
                '2, 2^64, decimal strings; floats 0, -0, 0.1, +-float32 max, +-1e39, +-inf, strings) for set, boundary values '
                'for read, plus read-only / unknown refusals. B: 14 thread sets (2-3 user threads x 1-2 requests from set / '
                'read / persistent store / clear / get_state / get_default on 3 parameters) x deviation vectors over reply '
@@ -644,6 +717,7 @@ def run(ck):
     ck.assume('not demanded: non-integral values for integer types; default value 2 of a 1-byte parameter (protocol '
               'ambiguity with ENOENT); a duplicate reply answering the next request for the same parameter')
     ck.pmap(part_a, [10, 3])
+    ck.pmap(part_cb, [(w, o) for w in ('fully_connected', 'all_updated', 'param_update_cb') for o in ('set', 'read')])
     cs = configs(ck.quick)
     r = explore(ck, exec_c04, cs, 1)
     ck.note('schedule_exploration_one_deviation', r)
@@ -683,6 +757,12 @@ def replay(ck, data):
     cfh.setup()
     if data.get('part') == 'A':
         print('part A case (sequential sweep): re-run the check;', data)
+        return
+    if data.get('part') == 'C':
+        p = part_cb((data['where'], data['op']))
+        ck.merge(p)
+        for v in p.violations:
+            print(' ', v['sig'], '::', v['what'])
         return
     p, ns, labels = exec_c04(data['cfg'], tuple(tuple(d) for d in data['devs']))
     ck.merge(p)
